@@ -140,3 +140,30 @@ def struct_fields(fmt: bytes | str) -> list[str]:
 
 def norm(node: ast.AST) -> str:
     return " ".join(unparse(node).split())
+
+
+_MUTABLE_CTORS = {"dict", "list", "set", "deque", "defaultdict", "OrderedDict", "bytearray", "collections.deque", "collections.defaultdict",
+                  "collections.OrderedDict", "np.array", "np.zeros", "np.ones", "np.empty", "numpy.array", "numpy.zeros"}
+
+
+def shared_mutable_defaults(prog, ci):
+    """attrs / dataclass fields of `ci` whose default is ONE mutable object evaluated at class creation (`default={}`, `= []`,
+    `default=dict()`): every instance that does not override it shares that object. -> [(field name, node, text)]"""
+    import ast as _ast
+
+    from .core import call_name
+
+    out = []
+    for f in prog.fields(ci):
+        d = f.get("default")
+        node = f["node"]
+        if d is None and f.get("has_default") and not f.get("factory"):
+            v = node.value
+            if v is not None and not (isinstance(v, _ast.Call) and (call_name(v) or "").split(".")[-1] in ("field", "ib")):
+                d = v
+        if d is None:
+            continue
+        if isinstance(d, (_ast.Dict, _ast.List, _ast.Set, _ast.DictComp, _ast.ListComp, _ast.SetComp)) or \
+                (isinstance(d, _ast.Call) and (call_name(d) or "") in _MUTABLE_CTORS):
+            out.append((f["name"], node, norm(d)))
+    return out
